@@ -38,7 +38,8 @@ def variants(case, idx, rnd, n):
         cls = "BasebandSignal" if kind in ("c16", "c8") and ssh and rnd.random() < 0.4 else "Signal"
         out.append({"kind": kind, "ssh": list(ssh), "cls": cls, "dask": rnd.random() < 0.2,
                     "rate": rnd.randrange(len(sl.RATES)), "epoch": rnd.randrange(len(EPOCHS)),
-                    "tnum": rnd.choice(["int", "float", "np"]), "nnum": rnd.choice(["int", "np"]), "hist": rnd.randrange(3)})
+                    "tnum": rnd.choice(["int", "float", "np"]), "nnum": rnd.choice(["int", "np"]), "hist": rnd.randrange(3),
+                    "tpick": rnd.randrange(64), "npick": rnd.randrange(64)})
     return out
 
 
@@ -51,7 +52,10 @@ def t_argument(case, var, z):
         if tq % 4 == 0 and var["tnum"] == "int":
             return int(ts), Fraction(tq, 4)
         if tq % 4 == 0 and var["tnum"] == "np":
-            return np.int64(ts), Fraction(tq, 4)
+            # a NumPy integer scalar of any width that holds it; small widths only for requests within bounds
+            # (t + n beyond the width of t itself is NumPy's overflow rule, not the property's subject)
+            ok = tq >= 0 and case["n"] >= 0 and tq + 4 * case["n"] <= 4 * case["len"]
+            return (sl.int_scalar(int(ts), var.get("tpick", 0))[0] if ok else np.int64(ts)), Fraction(tq, 4)
         return (np.float64(ts) if var["tnum"] == "np" else float(ts)), Fraction(tq, 4)
     if form == "duration":
         t = ts * z.dt
@@ -72,16 +76,16 @@ def replay_case(tab, case, var):
     start = EPOCHS[var["epoch"]] if case["hasT"] else None
     z = sl.make_signal(data, var["cls"], sl.RATES[var["rate"]], start, var["dask"])
     t, seen = t_argument(case, var, z)
-    narg = np.int64(n) if var["nnum"] == "np" else n
+    narg = sl.int_scalar(n, var.get("npick", 6))[0] if var["nnum"] == "np" else n      # np.int8 ... np.uint64
     what = "snippet(len=%d, t=%g samples as %s, n=%d; %s %s sample shape %r%s%s)" % (
         N, tq / 4, form, n, var["kind"], var["cls"], ssh, ", dask" if var["dask"] else "", "" if case["hasT"] else ", no start time")
     # decision boundaries of the float t the code derives from a Quantity / Time
     if seen is not None and form != "count":
         ok_abs = not (tq < 0 or tq + 4 * n > 4 * N)
         ok_seen = not (seen < 0 or seen + n > N)
-        if n >= 0 and ok_abs != ok_seen:
-            info["ambiguous"] += 1
-            return out, info
+        boundary = n >= 0 and ok_abs != ok_seen
+    else:
+        boundary = False
     m0 = sl.meta_of(z)
     before = (common.snapshot(t), common.snapshot(narg), common.snapshot(z))
     try:
@@ -89,6 +93,11 @@ def replay_case(tab, case, var):
         raised = None
     except Exception as e:  # noqa
         y, raised = None, e
+    if boundary and isinstance(raised, ValueError):
+        # the float sample count derived from the Quantity / Time lies across the bound: refusing is acceptable
+        # (a returned result is judged like any other)
+        info["ambiguous"] += 1
+        return out, info
     # ---- the caller's objects still denote what the caller wrote down: nothing passed in is modified ...
     after = (common.snapshot(t), common.snapshot(narg), common.snapshot(z))
     for nm, b, a_ in zip(("t", "n", "z"), before, after):
@@ -271,7 +280,7 @@ def forms_at_length(chk, rnd, thorough):
     n_checked = 0
     for N in ([64, 1000, 1023] + ([4096, 17] if thorough else [])):
         x = np.cumsum(np.array([rnd.uniform(-1, 1) for _ in range(N)])) + 3.0
-        for ri in (0, 1, 2, 8, 9):                     # rates up to kHz: Time resolution << 1e-7 sample
+        for ri in (0, 1, 2, 8, 9, 10):                 # rates up to kHz: Time resolution << 1e-7 sample
             for ep in EPOCHS:
                 z = pb.Signal(x.copy(), sample_rate=sl.RATES[ri][0] * sl.RATES[ri][1], start_time=ep)
                 for _ in range(6 if thorough else 2):
@@ -291,14 +300,14 @@ def forms_at_length(chk, rnd, thorough):
                                 seen = exact.frac(float((t * z.sample_rate).to_value(u.one)))
                             else:
                                 seen = exact.frac(float((((t - z.start_time).to(u.s)) * z.sample_rate).to_value(u.one)))
-                            if (seen < 0 or seen + n > N):
-                                chk.notes["ambiguous"] = chk.notes.get("ambiguous", 0) + 1
-                                continue
                             delta = abs(float(seen - Fraction(tq, 4)))
                             case = {"kind": "forms", "N": N, "rate": ri, "epoch": EPOCHS.index(ep), "tq": tq, "n": n, "form": form, "x": x.tolist()}
                             try:
                                 y = pb.snippet(z, t, n)
                             except Exception as e:  # noqa
+                                if isinstance(e, ValueError) and (seen < 0 or seen + n > N):
+                                    chk.notes["ambiguous"] = chk.notes.get("ambiguous", 0) + 1      # across the bound: may refuse
+                                    continue
                                 chk.violation("snippet:raised:" + form, "snippet(len=%d, t=%g as %s, n=%d) raised %r" % (N, ts, form, n, e), case)
                                 continue
                             n_checked += 1
@@ -308,6 +317,74 @@ def forms_at_length(chk, rnd, thorough):
                                               "snippet(len=%d, t=%g samples, n=%d) as %s vs as a sample count: %s" % (N, ts, n, form, bad), case)
     chk.validated += n_checked
     chk.notes["forms_compared_at_length"] = n_checked
+
+
+def whole_offsets(chk, thorough):
+    """every whole offset k given as a duration or a Time at rates where k / rate * rate != k in floating point,
+    with the snippet ending exactly at the last sample (t + n == len) and in the interior"""
+    n_checked = 0
+    for N in ((64, 100) if not thorough else (64, 100, 257)):
+        x = np.arange(1.0, N + 1.0)
+        for ri in (2, 8, 10, 9, 1):                       # 7 Hz, 10 Hz, 100 Hz, 3 kHz, 1 kHz
+            rate = sl.RATES[ri][0] * sl.RATES[ri][1]
+            z = pb.Signal(x.copy(), sample_rate=rate, start_time=EPOCHS[ri % len(EPOCHS)])
+            for k in range(N + 1):
+                for n in sorted({N - k, max(0, (N - k) // 2)}):
+                    for form, t in (("duration", k * z.dt), ("duration", (k / rate).to(u.s)), ("time", z.start_time + k * z.dt)):
+                        if form == "duration":
+                            seen = exact.frac(float((t * z.sample_rate).to_value(u.one)))
+                        else:
+                            seen = exact.frac(float((((t - z.start_time).to(u.s)) * z.sample_rate).to_value(u.one)))
+                        case = {"kind": "whole", "N": N, "rate": ri, "k": k, "n": n, "form": form}
+                        what = "snippet(len=%d, t=%d samples as %s at %s, n=%d)" % (N, k, form, rate, n)
+                        try:
+                            y = pb.snippet(z, t, n)
+                        except Exception as e:  # noqa
+                            if isinstance(e, ValueError) and seen + n > N:
+                                chk.notes["ambiguous"] = chk.notes.get("ambiguous", 0) + 1
+                            else:
+                                chk.violation("snippet:raised:" + form, "%s raised %r" % (what, e), case)
+                            continue
+                        n_checked += 1
+                        if len(y) != n:
+                            chk.violation("snippet:length:" + form, "%s returned %d samples" % (what, len(y)), case)
+                        elif n and np.abs(np.asarray(y.data) - x[k:k + n]).max() > 1e-5 * N * (1 + 8 * abs(float(seen - k)) * 1e5):
+                            chk.violation("snippet:value:whole:" + form, "%s is not z[%d:%d]" % (what, k, k + n), case)
+    chk.validated += n_checked
+    chk.notes["whole_offsets_as_duration_or_time"] = n_checked
+
+
+def small_integer_requests(chk):
+    """n (and whole t) as NumPy integer scalars whose own width cannot hold t + n"""
+    N = 1000
+    x = np.arange(1.0, N + 1.0)
+    z = pb.Signal(x, sample_rate=1 * u.kHz, start_time=EPOCHS[0])
+    count = 0
+    for t, n, ty in [(100, 200, "uint8"), (900, 200, "uint8"), (100, 100, "int8"), (950, 100, "int8"), (700, 255, "uint8"),
+                     (40000 % N, 300, "int16"), (990, 11, "int8"), (0, 127, "int8"), (873, 127, "int8"), (874, 127, "int8")]:
+        for tt in (t, float(t) + 0.5 if t + n < N else float(t), t * z.dt, z.start_time + t * z.dt):
+            tv = t + 0.5 if isinstance(tt, float) and tt != t else t
+            narg = np.dtype(ty).type(n)
+            case = {"kind": "smallint", "t": t, "n": n, "ty": ty}
+            what = "snippet(len=%d, t=%r, n=np.%s(%d))" % (N, tt, ty, n)
+            valid = tv + n <= N
+            if tv + n == N and not isinstance(tt, (int, float)):
+                continue                       # bound of the derived float count: covered by whole_offsets
+            count += 1
+            try:
+                y = pb.snippet(z, tt, narg)
+            except ValueError as e:
+                if valid:
+                    chk.violation("snippet:raised:small-integer-n", "%s raised %r" % (what, e), case)
+                continue
+            except Exception as e:  # noqa
+                chk.violation("snippet:wrong-exception:small-integer-n", "%s raised %r" % (what, e), case)
+                continue
+            if not valid:
+                chk.violation("snippet:no-refusal:small-integer-n", "%s goes beyond the end but returned %d samples" % (what, len(y)), case)
+            elif len(y) != n or (tv == t and not np.allclose(np.asarray(y.data), x[t:t + n], rtol=0, atol=0 if isinstance(tt, (int, float)) else 1e-2)):
+                chk.violation("snippet:length:small-integer-n", "%s returned %d samples starting with %s" % (what, len(y), np.asarray(y.data)[:1]), case)
+    chk.validated += count
 
 
 def forms_compare(ref, y, n, delta, N, x):
@@ -487,6 +564,8 @@ def run(chk):
     tab = sl.Table(res["table"][1])
     run_replay(chk, tab, res["cases"][1], rnd, 30000 if thorough else 3000, 2 if thorough else 1)
     forms_at_length(chk, rnd, thorough)
+    whole_offsets(chk, thorough)
+    small_integer_requests(chk)
     viol, runs, nl, notes, sample = res["long"]
     for name, r in runs:
         chk.add_tlc(name, r)
@@ -511,7 +590,18 @@ def replay(doc):
     if c["kind"] == "pipeline":
         return c01.replay(doc)
     bad = []
-    if c["kind"] == "long":
+    if c["kind"] in ("whole", "smallint"):
+        class Collect:
+            def __init__(self):
+                self.notes, self.validated, self.v = {}, 0, []
+
+            def violation(self, key, desc, case):
+                if case == c:
+                    self.v.append((key, desc))
+        col = Collect()
+        whole_offsets(col, True) if c["kind"] == "whole" else small_integer_requests(col)
+        bad = col.v
+    elif c["kind"] == "long":
         ev, other = drive_long(c["p"], 0)
         rejected, _ = sl.validate("Trace_Shift", [ev], batch=10, par=1)
         bad = [("snippet:long", "TLC rejects %s" % f) for _, f in rejected] + ([("snippet:long", other)] if other else [])
